@@ -990,6 +990,15 @@ func (fr *Frame) localsBefore(in ssa.Instruction) map[string]func(*State) SV {
 			if x == in {
 				break
 			}
+			if phi, isPhi := x.(*ssa.Phi); isPhi {
+				// a named phi of a dominating block (a variable assigned on several paths, e.g. `fresh` after an if/else or at a
+				// loop exit) IS the variable's value from here on: it overrides the debug refs of the assignments that flow into it
+				if sv, known := fr.vals[phi]; known && phi.Comment != "" && !strings.HasPrefix(phi.Comment, "range") {
+					v := sv
+					out[phi.Comment] = func(*State) SV { return v }
+				}
+				continue
+			}
 			d, ok := x.(*ssa.DebugRef)
 			if !ok {
 				continue
